@@ -148,6 +148,7 @@ class Canon:
                 if c and self.inlinable(c) is not None:
                     self.run_fn(self.fns[c], stack + (p,))
             self.drop_debug_asserts(body)
+            self.flag_exits(body)
             self.assert_eq_forms(body)
             self.match_bind_guards(body)
             self.split_last_match(body)
@@ -1416,6 +1417,79 @@ class Canon:
                 if vv is not None:
                     m[kk] = vv
             self.stats["split_last"] = self.stats.get("split_last", 0) + 1
+
+    def flag_exits(self, body):
+        """`let mut done = false; LOOP { .. done = true; break; .. } if done { A } else { B }` (the loop is the last statement, the flag is
+        written only as `done = true` immediately followed by the `break` of that loop, and read only by the tail)  ->
+        `LOOP { .. return A; .. } B`: at the `break` nothing runs between the exit and the tail, so returning A there is the same."""
+        if body.get("k") != "Block" or not body.get("stmts"):
+            return
+        tail = _strip(body["expr"]) if body.get("expr") is not None else None
+        if tail is None or tail.get("k") != "If" or tail.get("else") is None:
+            return
+        c = _strip(tail["cond"])
+        neg = False
+        if c.get("k") == "Unary" and c.get("op") == "!":
+            c, neg = _strip(c["e"]), True
+        if c.get("k") != "Local":
+            return
+        flag = c["v"]
+        lp_stmt = body["stmts"][-1]
+        lp = _strip(lp_stmt.get("e") or {}) if lp_stmt.get("k") in ("Semi", "Expr") else {}
+        if lp.get("k") not in ("For", "While", "Loop"):
+            return
+        decl = [st for st in body["stmts"] if st.get("k") == "Let" and st.get("pat", {}).get("k") == "Bind" and st["pat"].get("v") == flag]
+        if len(decl) != 1 or decl[0].get("init") is None or _strip(decl[0]["init"]).get("k") != "Lit" or _strip(decl[0]["init"]).get("v") != "false":
+            return
+        # every use of the flag: the declaration, the tail condition, and `flag = true` statements directly followed by `break`
+        sets = []
+        reads = 0
+        for n in _walk(body):
+            if n.get("k") == "Local" and n.get("v") == flag:
+                reads += 1
+
+        def scan(blk):
+            ok = True
+            sts = blk.get("stmts", [])
+            for i, st in enumerate(sts):
+                e = _strip(st.get("e") or {}) if st.get("k") in ("Semi", "Expr") else {}
+                if e.get("k") == "Assign" and _strip(e["l"]).get("k") == "Local" and _strip(e["l"]).get("v") == flag:
+                    nxt = sts[i + 1] if i + 1 < len(sts) else None
+                    nb = _strip(nxt.get("e") or {}) if nxt is not None and nxt.get("k") in ("Semi", "Expr") else (_strip(blk["expr"]) if nxt is None and blk.get("expr") is not None else {})
+                    r = _strip(e["r"])
+                    if r.get("k") == "Lit" and r.get("v") == "true" and nb.get("k") == "Break" and nb.get("e") is None and not nb.get("label"):
+                        sets.append((blk, i, nxt is None))
+                    else:
+                        ok = False
+            return ok
+        good = True
+        inner_loops = [n for n in _walk(lp["body"]) if n.get("k") in ("For", "While", "Loop")]
+        for n in _walk(lp):
+            if n.get("k") == "Block":
+                if any(n is il.get("body") or any(n is x for x in _walk(il)) for il in inner_loops):
+                    # a `break` inside a nested loop leaves that loop, not ours
+                    if any(x.get("k") == "Local" and x.get("v") == flag for x in _walk(n)):
+                        good = False
+                    continue
+                good = scan(n) and good
+        if not good or not sets or reads != len(sets) + 1:
+            return
+        A, B = (tail["else"], tail["then"]) if neg else (tail["then"], tail["else"])
+        sp = tail.get("sp") or [0, 0, 0, 0]
+        for blk, i, at_tail in sets:
+            val = copy.deepcopy(A)
+            for x in _walk(val):
+                if "id" in x:
+                    x["id"] = self._id()
+            ret = {"k": "Ret", "e": val, "id": self._id(), "ty": "!", "sp": list(blk["stmts"][i].get("sp") or sp)}
+            if at_tail:
+                blk["stmts"] = blk["stmts"][:i] + [{"k": "Semi", "e": ret, "sp": list(ret["sp"])}]
+                blk["expr"] = None
+            else:
+                blk["stmts"] = blk["stmts"][:i] + [{"k": "Semi", "e": ret, "sp": list(ret["sp"])}] + blk["stmts"][i + 2:]
+        body["stmts"] = [st for st in body["stmts"] if st is not decl[0]]
+        body["expr"] = B
+        self.stats["flag_exits"] = self.stats.get("flag_exits", 0) + 1
 
     def loop_to_while(self, body):
         """`loop { if c1 { break; } if c2 { break; } BODY }`  ->  `while !c1 && !c2 { BODY }` (the leading exits of a `loop` are its condition)."""
